@@ -4,6 +4,7 @@ CONSTANTS
   MaxOps = 2
   MinOps = 3
   Rand = FALSE
+  PreludeId = 0
   OutFile = "beh.ndjson"
   MaxDepth = 2
   Offs = {0, 1}
